@@ -40,6 +40,7 @@ def check(ctx):
         av = def_value(d) if d not in (None, PARAM, AMBIGUOUS) else None
     okq = isinstance(av, ast.Call) and m.resolve_call(fh, av) == 'scipy.spatial.distance.squareform' and [u(a) for a in av.args] == [dp] and not av.keywords
     rep.add('U1', fh.site(lc), 'the linkage input is the condensed form of the given matrix itself', okq, expected=f'squareform({dp})', found=u(av), stmt='condensed form')
+    rep.account_returns('U1', fh, rets, 'linkage')
     extra = [k.arg for k in lc.keywords if k.arg not in ('method',)]
     rep.add('U1', fh.site(lc), 'no other linkage option (metric / optimal ordering) alters the result', not extra and len(lc.args) <= 2, expected='none', found=extra, stmt='linkage options')
 
@@ -114,6 +115,7 @@ def check(ctx):
     oka = any(atoms(a.test) == {('eq', f'len({lb})', nl)} for a in asserts)
     rep.add('U2', ft.site(asserts[0] if asserts else None), 'the number of labels must equal the number of leaves', oka, expected=f'assert len({lb}) == {nl}', found=[u(a.test) for a in asserts], stmt='label count')
     last = fn.body[-1]
+    rep.account_returns('U2', ft, [last] if isinstance(last, ast.Return) else [], 'tree')
     okr = isinstance(last, ast.Return) and isinstance(last.value, ast.Call) and u(last.value.func) == 'Tree' and u(get_kw(last.value, 'root')) == f'{clades}[-1]' and is_const(get_kw(last.value, 'rooted'), True)
     rep.add('U2', ft.site(last), 'the root is the last clade created (the final merge); the tree is rooted', okr, expected=f'Tree(root={clades}[-1], rooted=True)', found=u(last), stmt='root')
 
